@@ -8,12 +8,12 @@ import re
 from collections import namedtuple
 
 from ural.utils import pathsplit, safe_urlsplit, SplitResult
-from ural.patterns import DOMAIN_TEMPLATE
+from ural.patterns import DOMAIN_TEMPLATE, SUBDOMAINS
 
 INSTAGRAM_POST_SHORTCODE_RE = re.compile(r"^[a-zA-Z0-9_\-]+$")
 INSTAGRAM_USERNAME_RE = re.compile(r"^[a-zA-Z0-9_\-\.]+$")
-INSTAGRAM_DOMAIN_RE = re.compile(r"instagram.com$", re.I)
-INSTAGRAM_URL_RE = re.compile(DOMAIN_TEMPLATE % r"(?:[^.]+\.)*instagram.com", re.I)
+INSTAGRAM_DOMAIN_RE = re.compile(r"(?:^|\.)instagram\.com\.?$", re.I)
+INSTAGRAM_URL_RE = re.compile(DOMAIN_TEMPLATE % (SUBDOMAINS + r"instagram\.com"), re.I)
 INSTAGRAM_NOT_A_USER_SET = {
     "accounts",
     "ads",
